@@ -6,6 +6,7 @@ import (
 	"errors"
 	"fmt"
 	"net/http"
+	"net/url"
 	"strconv"
 	"time"
 
@@ -34,7 +35,11 @@ const (
 	offGrid = 500 * time.Microsecond
 )
 
-var c13Kinds = []string{"200bad", "408", "429", "503", "other", "net.err", "net.cut", "redirect"}
+var c13Kinds = []string{"200bad", "408", "429", "503", "other", "net.err", "net.cut", "redirect", "stall"}
+
+// per-attempt http.Client.Timeout of the shared client (real deployments use 10 s); all on the
+// millisecond grid, so it never ties with a caller deadline (off the grid)
+var c13Timeouts = []time.Duration{0, 10 * time.Second, 200 * time.Millisecond}
 var c13RAForms = []string{"absent", "0", "1", "30", "1000", "2^31", "int", "date+", "date-", "garbage"}
 var c13Other = []int{400, 403, 404, 500, 501, 502, 201, 300}
 var c13Redirects = []int{307, 308, 301, 302, 303}
@@ -47,6 +52,7 @@ type c13Profile struct {
 	KindW   []int // by c13Kinds
 	RAW     []int // by c13RAForms
 	CancelW int
+	Timeout time.Duration // http.Client.Timeout of the shared client; 0 = none
 }
 
 // model phases of one submitter
@@ -58,6 +64,7 @@ const (
 	phRetOK   = "ret-ok"  // the first parsable 200 has been delivered: success must be returned at once
 	phRetErr  = "ret-err" // a non-retryable status has been delivered: RspError must be returned at once
 	phAborted = "aborted" // the context ended while an attempt was in flight
+	phStalled = "stalled" // the server will never answer this attempt: only a cancellation ends it
 	phDone    = "done"
 )
 
@@ -87,6 +94,7 @@ type submitter struct {
 
 	// model state (driver only)
 	seen      int
+	cur       *rtCall // the attempt in flight (parked at the server, or stalled)
 	phase     string
 	T         time.Duration // time of the last outcome
 	E         time.Duration // earliest next attempt (own Retry-After); <0 none
@@ -111,6 +119,7 @@ type c13World struct {
 	subs   []*submitter
 	byName map[string]*submitter
 	sctTS  uint64
+	wake   chan struct{} // signalled (never blocking) whenever an attempt reaches the transport
 
 	// shared-client model: J = latest instant any server response on this client asked to wait
 	// for; F = instant of the latest outcome (other than 408) the client may count as a failure
@@ -143,13 +152,15 @@ func (w *c13World) Init(s *kernel.Sim) {
 		}
 	}
 	p.CancelW = t.Intn(3)
+	p.Timeout = c13Timeouts[t.Intn(len(c13Timeouts))]
 
 	w.ctx, w.cancel = context.WithCancel(context.Background())
+	w.wake = make(chan struct{}, 1)
 	w.pki = newPKI(t, time.Now(), false)
 	w.logKey = logKeyFor("p256", t.Intn(2))
 	w.J, w.F = -1, -1
 	w.sctTS = 946684800000
-	lc, err := client.New("http://log.test/sim", &http.Client{Transport: &transport{s: s}},
+	lc, err := client.New("http://log.test/sim", &http.Client{Transport: &transport{s: s, onArrive: w.signalArrival}, Timeout: p.Timeout},
 		jsonclient.Options{PublicKeyDER: w.logKey.SPKI, Logger: quietLogger{}})
 	if err != nil {
 		panic("harness: client.New: " + err.Error())
@@ -184,6 +195,7 @@ func (w *c13World) start(sb *submitter) {
 		sb.ctx, sb.cancel = context.WithDeadline(w.ctx, time.Now().Add(sb.deadlineIn))
 		sb.deadlineT = sb.startT + sb.deadlineIn
 	}
+	sb.caller = sb.ctx
 	s.Go(func() { w.run(sb) })
 }
 
@@ -240,8 +252,13 @@ func (w *c13World) goodBody(sb *submitter) ([]byte, uint64) {
 func (w *c13World) script(sb *submitter, c *rtCall) *served {
 	t := w.s.T
 	kind := c13Kinds[t.Pick(w.prof.KindW)]
+	if kind == "stall" && w.prof.Timeout == 0 && sb.deadlineT < 0 {
+		kind = "net.err" // nothing would ever end a stalled attempt of this submitter
+	}
 	o := &served{Kind: kind, CutAt: -1, Header: http.Header{}}
 	switch kind {
+	case "stall":
+		o.Stall = true
 	case "200bad":
 		o.Status = 200
 		good, _ := w.goodBody(sb)
@@ -362,7 +379,14 @@ func (w *c13World) answer(p *kernel.Parked, o *served, ts uint64) {
 	if raOK && now+ra > w.J {
 		w.J = now + ra // any submitter of the shared client may legitimately be delayed until then
 	}
+	if !o.Stall {
+		sb.cur = nil // answered: this attempt is over
+	}
 	switch {
+	case o.Stall:
+		// nothing is expected until the request is cancelled: by the caller's context (usual
+		// context rule) or by the client's per-attempt timeout (a transport error, see attemptEnded)
+		sb.phase = phStalled
 	case o.NetErr:
 		sb.phase, sb.L = phRetry, generic()
 	case o.isRedirect():
@@ -427,6 +451,10 @@ func kindFamily(k string) string {
 	switch k {
 	case "net.err", "net.cut":
 		return k
+	case "stall":
+		return "net.stall"
+	case "net.timeout":
+		return k
 	case "redirect":
 		return "net.redirect"
 	}
@@ -449,6 +477,28 @@ func maxDur(a, b time.Duration) time.Duration {
 	return b
 }
 
+// deliverTimeout lets the client learn that http.Client.Timeout has cancelled its attempt while the
+// caller's context is alive: a transport error like any other - it must be retried, under the usual pacing.
+func (w *c13World) deliverTimeout(p *kernel.Parked) {
+	s := w.s
+	sb := w.byName[p.Party]
+	c := p.Info.(*rtCall)
+	now := s.Now()
+	if sb.phase == phStalled {
+		s.Probe("timeout.after-stall")
+	} else {
+		s.Probe("timeout.while-unanswered")
+	}
+	s.Fault("net.timeout")
+	s.Probe("timeout.caller-alive")
+	sb.T, sb.E, sb.followOK, sb.want, sb.cur = now, -1, false, nil, nil
+	sb.lastKind, sb.lastRA = "net.timeout", ""
+	sb.phase, sb.L = phRetry, maxDur(now+capBackoff, w.J)+capJitter
+	w.F = now
+	s.Logf("client timeout -> %s#%d: attempt cancelled at %v by http.Client.Timeout=%v, reported now  [model %s L=%v]", sb.Party, c.Idx, c.AbortT, w.prof.Timeout, sb.phase, sb.L)
+	s.Release(p, kernel.Decision{Kind: "ok"})
+}
+
 // ---- driver options ----
 
 func (w *c13World) active() int {
@@ -463,7 +513,15 @@ func (w *c13World) active() int {
 
 func (w *c13World) Options(s *kernel.Sim) []kernel.Option {
 	var opts []kernel.Option
-	parked := s.ParkedCalls()
+	all := s.ParkedCalls()
+	var parked, timeouts []*kernel.Parked // attempts waiting for the server / timed-out attempts waiting to be reported
+	for _, p := range all {
+		if p.Name == "rt.timedout" {
+			timeouts = append(timeouts, p)
+		} else {
+			parked = append(parked, p)
+		}
+	}
 	for _, p := range parked {
 		p := p
 		opts = append(opts, kernel.Option{Key: "answer " + p.Key + " -> 200 good", Weight: w.prof.OkW, Apply: func() {
@@ -472,10 +530,17 @@ func (w *c13World) Options(s *kernel.Sim) []kernel.Option {
 			w.answer(p, &served{Status: 200, Body: body, CutAt: -1, Header: http.Header{"Content-Type": {"application/json"}}, Kind: "200good", Honest: true}, ts)
 		}})
 	}
+	for _, p := range timeouts {
+		p := p
+		opts = append(opts, kernel.Option{Key: "report " + p.Key, Weight: 8, Apply: func() { w.deliverTimeout(p) }})
+	}
 	if !s.FaultsOn() {
-		if len(parked) == 0 && w.active() > 0 {
-			// settle: everyone still running sleeps in a back-off; one jump beyond the largest admissible Retry-After
-			opts = append(opts, s.AdvanceOpt(time.Duration(maxRetryAfterS)*time.Second+2*time.Hour, 1))
+		if len(all) == 0 && w.active() > 0 {
+			// settle: everyone still running sleeps in a back-off or hangs on a stalled attempt. Let the
+			// clock run until the next attempt reaches the server, at most beyond the largest admissible
+			// Retry-After. (A blind jump would leave attempts unanswered for years of fake time, and a
+			// client with a per-attempt timeout would spin through millions of timed-out retries.)
+			opts = append(opts, kernel.Option{Key: "clock until the next attempt", Weight: 1, Apply: w.runUntilAttempt})
 		}
 		return opts
 	}
@@ -507,7 +572,7 @@ func (w *c13World) Options(s *kernel.Sim) []kernel.Option {
 	}
 	if w.active() > 0 {
 		cw := []int{1, 1, 2, 2, 2, 1}
-		if len(parked) > 0 {
+		if len(all) > 0 {
 			cw = []int{1, 1, 1, 1, 0, 0}
 		}
 		for i, d := range kernel.ClockLadder {
@@ -515,6 +580,28 @@ func (w *c13World) Options(s *kernel.Sim) []kernel.Option {
 		}
 	}
 	return opts
+}
+
+func (w *c13World) signalArrival() {
+	select {
+	case w.wake <- struct{}{}:
+	default:
+	}
+}
+
+// runUntilAttempt blocks the driver (durably) until an attempt arrives at the transport or the
+// settle bound has passed; fake time advances timer by timer meanwhile. Driver goroutine only.
+func (w *c13World) runUntilAttempt() {
+	select {
+	case <-w.wake: // a stale signal from an earlier step
+	default:
+	}
+	tm := time.NewTimer(time.Duration(maxRetryAfterS)*time.Second + 2*time.Hour)
+	defer tm.Stop()
+	select {
+	case <-w.wake:
+	case <-tm.C:
+	}
 }
 
 // ctxEnd reports whether the submitter's context has ended by now, and when.
@@ -529,6 +616,21 @@ func (sb *submitter) ctxEnd(now time.Duration) (time.Duration, bool) {
 	return end, ok
 }
 
+// fin is how an attempt ended without an answer from the server (snapshot taken under the actor's lock).
+type fin struct {
+	aborted  bool // the caller's context ended
+	timedOut bool // only the request's context ended: the client's per-attempt timeout
+	t        time.Duration
+}
+
+// attemptEnded applies the end of the attempt in flight to the model, if the caller's context ended it.
+// (An attempt cancelled by the client's per-attempt timeout is reported through deliverTimeout.)
+func (w *c13World) attemptEnded(sb *submitter, f fin) {
+	if f.aborted {
+		sb.phase, sb.T, sb.cur = phAborted, f.t, nil
+	}
+}
+
 // AfterStep evaluates the model against what the submitters did since the last quiescent point.
 func (w *c13World) AfterStep(s *kernel.Sim) {
 	now := s.Now()
@@ -538,23 +640,28 @@ func (w *c13World) AfterStep(s *kernel.Sim) {
 		}
 		sb.mu.Lock()
 		calls := append([]*rtCall(nil), sb.Calls[sb.seen:]...)
-		type snap struct {
-			aborted bool
-			abortT  time.Duration
+		finOf := func(c *rtCall) fin { return fin{c.Aborted, c.TimedOut, c.AbortT} }
+		var curFin fin
+		if sb.cur != nil {
+			curFin = finOf(sb.cur)
+		}
+		fins := make([]fin, len(calls))
+		for i, c := range calls {
+			fins[i] = finOf(c)
 		}
 		done, retT, err, sct, body, status, pan := sb.Done, sb.RetT, sb.Err, sb.SCT, sb.Body, sb.Status, sb.Panic
-		// a call seen earlier may have been aborted since
-		var lastAborted *snap
-		if n := len(sb.Calls); n > 0 && sb.Calls[n-1].Aborted {
-			lastAborted = &snap{true, sb.Calls[n-1].AbortT}
-		}
 		sb.mu.Unlock()
 		sb.seen += len(calls)
 
-		for _, c := range calls {
+		// the attempt that was in flight may have ended without an answer since the last step
+		if sb.cur != nil {
+			w.attemptEnded(sb, curFin)
+		}
+		for i, c := range calls {
 			sb.attempts++
 			if c.Follow && sb.followOK {
-				sb.phase, sb.followOK = phFlight, false
+				sb.phase, sb.followOK, sb.cur = phFlight, false, c
+				w.attemptEnded(sb, fins[i])
 				continue
 			}
 			// a new attempt of the retry loop
@@ -578,10 +685,8 @@ func (w *c13World) AfterStep(s *kernel.Sim) {
 				s.Violate("harness", "c13.model", "%s: attempt #%d in phase %s", sb.Party, c.Idx, sb.phase)
 				return
 			}
-			sb.phase, sb.followOK = phFlight, false
-		}
-		if lastAborted != nil && sb.phase == phFlight {
-			sb.phase, sb.T = phAborted, lastAborted.abortT
+			sb.phase, sb.followOK, sb.cur = phFlight, false, c
+			w.attemptEnded(sb, fins[i])
 		}
 		end, ended := sb.ctxEnd(now)
 
@@ -636,26 +741,26 @@ func (w *c13World) AfterStep(s *kernel.Sim) {
 		}
 		switch sb.phase {
 		case phRetOK:
-			s.Violate("c13.missed-success", fmt.Sprintf("api=%d", sb.API), "%s: parsable 200 delivered at %v (first one), call returned error %v", sb.Party, sb.T, err)
+			s.Violate("c13.missed-success", fmt.Sprintf("api=%d", sb.API), "%s: parsable 200 delivered at %v (first one), call returned error %s", sb.Party, sb.T, errDesc(err))
 			return
 		case phRetErr:
 			s.Probe("ret.rsperror")
 			var re jsonclient.RspError
 			if !errors.As(err, &re) || re.StatusCode != sb.want.Status || !bytes.Equal(re.Body, sb.want.Body) {
-				s.Violate("c13.bad-error", sb.lastKind, "%s: %s must come back as RspError with status and body; got %T %v (status %d body %q)", sb.Party, sb.lastKind, err, err, re.StatusCode, re.Body)
+				s.Violate("c13.bad-error", sb.lastKind, "%s: %s must come back as RspError with status and body; got %s (status %d body %q)", sb.Party, sb.lastKind, errDesc(err), re.StatusCode, re.Body)
 				return
 			}
 			if retT != sb.T {
 				s.Violate("c13.late-return", sb.lastKind, "%s: %s delivered at %v, returned at %v", sb.Party, sb.lastKind, sb.T, retT)
 				return
 			}
-		case phEither, phRetry, phAborted, phFlight:
+		case phEither, phRetry, phAborted, phFlight, phStalled:
 			if sb.phase == phEither && retT == sb.T && !ended {
 				s.Probe("ret.either-error")
 				break // returned as an error on the spot: allowed, the statement only forbids success
 			}
 			if !ended {
-				s.Violate("c13.gave-up", sb.lastKind, "%s: returned %v at %v after %s at %v although its context is alive: a retryable outcome must be retried", sb.Party, err, retT, sb.lastKind, sb.T)
+				s.Violate("c13.gave-up", sb.lastKind, "%s: returned %s at %v after %s at %v although its context is alive: a retryable outcome must be retried", sb.Party, errDesc(err), retT, sb.lastKind, sb.T)
 				return
 			}
 			s.Probe("ret.ctx")
@@ -664,7 +769,7 @@ func (w *c13World) AfterStep(s *kernel.Sim) {
 				return
 			}
 			if ce := sb.ctx.Err(); ce == nil || !errors.Is(err, ce) {
-				s.Violate("c13.ctx-wrong-error", fmt.Sprintf("ctxkind=%d phase=%s", sb.ctxKind, sb.phase), "%s: context ended with %v, call returned %T %v", sb.Party, ce, err, err)
+				s.Violate("c13.ctx-wrong-error", fmt.Sprintf("ctxkind=%d phase=%s", sb.ctxKind, sb.phase), "%s: context ended with %v, call returned %s", sb.Party, ce, errDesc(err))
 				return
 			}
 			if sb.phase == phAborted {
@@ -688,6 +793,20 @@ func lateKey(kind string) string {
 		return "after-converted"
 	}
 	return "after-" + kindFamily(kind)
+}
+
+// errDesc describes an error for the event log without its text when it comes out of net/http:
+// the "(Client.Timeout exceeded ...)" suffix is appended there depending on which of two
+// goroutines runs first, and must not reach the log.
+func errDesc(err error) string {
+	if err == nil {
+		return "<nil>"
+	}
+	var ue *url.Error
+	if errors.As(err, &ue) {
+		return fmt.Sprintf("%T{Op:%s timeout:%v is-DeadlineExceeded:%v is-Canceled:%v}", err, ue.Op, ue.Timeout(), errors.Is(err, context.DeadlineExceeded), errors.Is(err, context.Canceled))
+	}
+	return fmt.Sprintf("%T %q", err, err.Error())
 }
 
 func errText(err error) string {
